@@ -7,7 +7,7 @@ from ..effects import Engine
 from .common import where
 
 
-def run_block(chk, repo, rid_prefix, q, kind, single_rule=None):
+def run_block(chk, repo, rid_prefix, q, kind, single_rule=None, rule_override=None):
     fi = repo.func(q)
     items = []
 
@@ -18,10 +18,10 @@ def run_block(chk, repo, rid_prefix, q, kind, single_rule=None):
     ba.check_return()
     rules = {'perm': 'R1', 'perm-pair': 'R1', 'unperm': 'R1', 'return': 'R1',
              'loop-domain': 'R2', 'block-read': 'R2', 'block-store': 'R2', 'block-call': 'R2', 'interm': 'R2',
-             'dummy': 'R3', 'restrict': 'R4'}
+             'dummy': 'R3', 'restrict': 'R4', 'dtype': 'R6'}
     seen = {}
     for k, node, ok, text in items:
-        rid = single_rule or f'{rid_prefix}.{rules[k]}'
+        rid = single_rule or (rule_override or {}).get(k) or f'{rid_prefix}.{rules[k]}'
         base = f'{rid}|{q}|{k}|{text[:200]}'
         seen[base] = seen.get(base, 0) + 1
         chk.ob(rid, where(repo, fi, node), f'{fi.name}: {text[:160]}', ok, text,
@@ -56,6 +56,8 @@ def run(chk, repo, tier):
     chk.rule('C11.R3', 'dummy bond for disjoint charges: factors (rows, 1) and (1, cols), one unit entry in the first '
                        'factor at a row whose charge is the returned label, second factor zero')
     chk.rule('C11.R5', 'the inputs are never written (effects engine)')
+    chk.rule('C11.R6', 'storage type: the factor arrays are allocated with an inexact dtype (integer input is promoted first), '
+                       'so that floating-point block factors are not truncated')
     fi, ba, items = run_block(chk, repo, 'C11', 'bond_ops.qr', 'qr')
     bounds_rule(chk, repo, 'C11.R2', fi, getattr(ba, 'Dname', 'D'))
     c = ba.counts
